@@ -76,6 +76,7 @@ def sinst : STy â†’ SVal â†’ Bool
   | .typeOrTypeName, .type => true
   | .typeOrTypeName, .str s => typeName s
   | .attributes, .hashOf ks => ks.all memberName          -- Hash[MemberName, NotUndef]
+  | .constants, .hashOf ks => ks.all memberName           -- Hash[MemberName, Any]
   | .equality, .str s => memberName s                     -- Variant[MemberName, Array[MemberName]]
   | .equality, .strs l => l.all memberName
   | .boolean, .bool _ => true
@@ -98,6 +99,7 @@ def defHash (name : Option String) (parentKey : Bool) (d : Def) : List (String Ã
   (match name with | some n => [("name", SVal.str n)] | none => []) ++
   (if parentKey then [("parent", SVal.type)] else []) ++
   (if d.attrs.isEmpty then [] else [("attributes", SVal.hashOf (d.attrs.map (Â·.name)))]) ++
+  (if d.constants.isEmpty then [] else [("constants", SVal.hashOf (d.constants.map (Â·.1)))]) ++
   (match d.equality with
     | .absent => []
     | .one s => [("equality", SVal.str s)]
